@@ -16,7 +16,7 @@ func init() { register("C18", propC18) }
 type apiProgSpec struct {
 	A, B      epCfg
 	Unordered bool
-	Ops       string // sequence over 1 (1 byte) 3 (3P bytes) 0 (empty) X (max+1) C (close stream, then a write) S (short-buffer read before the normal ones)
+	Ops       string // sequence over 1 (1 byte) 3 (3P bytes) 0 (empty) X (max+1) C (close stream, then a write) S (short-buffer read before the normal ones) T (a read on the writing side times out)
 	ReadBuf   int
 }
 
@@ -52,6 +52,14 @@ func progScenario(spec *apiProgSpec) *Scenario {
 					data = []byte{}
 				case 'X':
 					data = make([]byte, maxMsg+1)
+				case 'T':
+					// a read on the writing side that runs into its deadline (the stream keeps
+					// the expired deadline until it is re-armed)
+					_ = sa.SetReadDeadline(time.Now().Add(20 * time.Millisecond))
+					if n, _, err := sa.ReadSCTP(make([]byte, 64)); !errors.Is(err, ErrReadDeadlineExceeded) {
+						m.Failf("api.deadline", "read with nothing to read and a 20 ms deadline returned n=%d err=%v", n, err)
+					}
+					continue
 				case 'C':
 					if err := sa.Close(); err != nil {
 						m.Failf("close", "stream Close: %v", err)
@@ -448,7 +456,7 @@ func propC18(j *Job) {
 		}
 	}
 	gen("")
-	progs = append(progs, "1C1", "3C3", "C1", "1S", "3S3", "10S", "0", "00", "X1S")
+	progs = append(progs, "1C1", "3C3", "C1", "1S", "3S3", "10S", "0", "00", "X1S", "TC1", "1TC3", "T1", "1T3S")
 	for mi, mode := range modes {
 		for _, u := range []bool{false, true} {
 			for _, p := range progs {
